@@ -11,6 +11,8 @@ import QV.Driver.Xml
 import QV.Driver.ClassGraph
 import QV.Driver.QmlDir
 import QV.Driver.Cli
+import QV.Driver.Ir
+import QV.Driver.Passes
 
 open QV
 
@@ -50,6 +52,9 @@ def dispatch (req : Sexp) : Sexp :=
   | .list (.atom "spec-cli-paths" :: args) => Driver.Cli.handleSpecPaths args
   | .list (.atom "cli-hist" :: args) => Driver.Cli.handleHist args
   | .list (.atom "cli-kill" :: args) => Driver.Cli.handleKill args
+  | .list (.atom "build" :: args) => Driver.Ir.handleBuild args
+  | .list (.atom "cfgcheck" :: args) => Driver.Ir.handleCfgCheck args
+  | .list (.atom "passes" :: args) => Driver.Passes.handle args
   | _ => .list [.atom "bad-request"]
 
 partial def loop (h : IO.FS.Stream) (out : IO.FS.Stream) : IO Unit := do
